@@ -36,6 +36,9 @@ type c12obs struct {
 // both are legal and must give the same reader.
 func c12place(content []byte, before [][]byte, readerFirst bool) (*parsley.FileSet, *text.File, *text.Reader) {
 	fs := parsley.NewFileSet()
+	if c12far > 0 && len(before) > 0 {
+		fs.AddFile(gram.Filler("far", c12far, 'y')) // the placed copy lies beyond a large file (64 KiB ... 2^40 bytes)
+	}
 	for i, b := range before {
 		fs.AddFile(text.NewFile(fmt.Sprintf("other%d", i), b))
 	}
@@ -60,6 +63,9 @@ func c12order(before [][]byte) bool {
 	return n%2 == 1
 }
 
+// c12far: length of a large file that precedes the placed copy of the current case (0: none). Set per case.
+var c12far int
+
 // c12parse runs Parse (and Evaluate when eval is set) on a fresh context
 func c12parse(p parsley.Parser, content []byte, before [][]byte, eval bool) (o c12obs) {
 	fs, f, rd := c12place(content, before, c12order(before))
@@ -67,13 +73,22 @@ func c12parse(p parsley.Parser, content []byte, before [][]byte, eval bool) (o c
 	o.errPos = -1
 	// the other files of the set are in use as well: render a position in each of them before this file is parsed
 	// (e.g. an earlier file failed to parse and its error was printed)
-	for p := 1; p < o.base; p += 1 + o.base/7 {
+	lo := 1
+	if c12far > 0 && len(before) > 0 {
+		lo = c12far + 1 // (a contentless filler renders no line:column worth asking for)
+	}
+	for p := lo; p < o.base; p += 1 + (o.base-lo)/7 {
 		_ = fs.Position(parsley.Pos(p)).String()
 	}
 	ctx := parsley.NewContext(fs, rd)
 	defer func() {
 		o.calls = ctx.CallCount()
 		if e := recover(); e != nil {
+			if oc, ok := e.(arithOverCap); ok {
+				o.calls = oc.calls // abandoned: the caller compares call counts and reports the difference
+				o.tree, o.value, o.errTxt = "", "", ""
+				return
+			}
 			o.panicv = fmt.Sprint(e)
 		}
 	}()
@@ -123,6 +138,10 @@ func c12compare(a *run.Acc, family string, content string, alone, placed c12obs,
 		d[k] = v
 	}
 	a.Count("placements compared", 1)
+	if c12far > 0 {
+		d["bytes_of_a_large_file_before"] = c12far
+		a.Count("placements beyond a file of 64 KiB ... 2^40 bytes", 1)
+	}
 	switch {
 	case alone.panicv != "" || placed.panicv != "":
 		if alone.panicv != placed.panicv {
@@ -162,6 +181,10 @@ func c12exec(j run.Job, a *run.Acc) {
 	ar := newArith()
 	for it := 0; it < j.N; it++ {
 		before := c12before(r)
+		c12far = 0
+		if r.Intn(8) == 0 {
+			c12far = gram.BigOffsets[r.Intn(len(gram.BigOffsets))]
+		}
 		switch j.Family {
 		case "json":
 			doc := jg.doc(1 + r.Intn(4))
@@ -204,7 +227,14 @@ func c12exec(j run.Job, a *run.Acc) {
 				continue
 			}
 			alone := c12parse(ar.Root, []byte(raw), nil, true)
+			arithCallCap = 20*alone.calls + 100000 // the placed run must need exactly alone.calls; far beyond that it is stopped
 			placed := c12parse(ar.Root, []byte(raw), before, true)
+			arithCallCap = 0
+			if placed.calls > 20*alone.calls+100000 {
+				a.Violate("work-depends-on-placement", "work-depends-on-placement", map[string]any{"family": "arithmetic", "content": raw, "calls_alone": alone.calls,
+					"calls_placed_when_abandoned": placed.calls, "base_placed": placed.base, "bytes_of_a_large_file_before": c12far})
+				continue
+			}
 			if c12compare(a, "arithmetic", raw, alone, placed, nil) {
 				a.NonTrivial("arith:" + raw + fmt.Sprint(placed.base))
 				if alone.errTxt != "" {
@@ -295,6 +325,9 @@ func c12exec(j run.Job, a *run.Acc) {
 			for i := range before {
 				lens[i] = len(specNormalise(before[i]))
 			}
+			if c12far > 0 {
+				lens = append([]int{c12far}, lens...)
+			}
 			if !a.Begin() {
 				continue
 			}
@@ -365,7 +398,7 @@ func init() {
 		},
 		Exec: c12exec,
 		Finish: func(tier string, a *run.Acc, cov map[string]any) string {
-			cov["rule"] = "case = one content parsed twice with fresh contexts: alone in its file set (base 1) and preceded by 1-8 random files (lengths 0-59, CR/LF/CRLF inside). " +
+			cov["rule"] = "case = one content parsed twice with fresh contexts: alone in its file set (base 1) and preceded by 1-8 random files (lengths 0-59, CR/LF/CRLF inside), one case in 8 beyond an additional file of 64 KiB ... 2^40 bytes (real up to 2 MiB, contentless parsley.File beyond). " +
 				"Workloads: JSON example (valid and corrupted documents, Evaluate), left-recursive arithmetic (values and division-by-zero errors), trimmed token sequences, every literal parser at every offset, " +
 				"random and mutual-left-recursive grammars (curtailment uses Remaining). Compared: tree rendering relative to the base, values, full error texts (file:line:column), context error position relative to the base, " +
 				"absolute root positions shifted by exactly the base difference, and CallCount. non-trivial = a comparison that ran to completion on a non-empty content; distinct = (content, placement)"
